@@ -107,7 +107,10 @@ func fuzzBatch(seed int64, n int, adversarial bool) *fuzzReport {
 		}
 	}
 	opts := func(b *Built) []xsel.ContextApply {
-		return []xsel.ContextApply{xsel.WithNS("p", "u1"), xsel.WithNS("q", "u2"), xsel.WithVariable("v", xsel.NodeSet{b.Root}), xsel.WithVariable("n", xsel.Number(1.5)),
+		// arbitrary bindings include degenerate ones: a variable bound to the nil interface, one bound to a nil
+		// node-set, and a binding for the empty prefix
+		return []xsel.ContextApply{xsel.WithNS("p", "u1"), xsel.WithNS("q", "u2"), xsel.WithNS("", "u3"), xsel.WithVariable("v", xsel.NodeSet{b.Root}), xsel.WithVariable("n", xsel.Number(1.5)),
+			xsel.WithVariable("z", nil), xsel.WithVariable("e", xsel.NodeSet(nil)),
 			xsel.WithVariable("s", xsel.String("a b")), xsel.WithFunction("f", func(c xsel.Context, a ...xsel.Result) (xsel.Result, error) {
 				if len(a) > 2 {
 					return nil, fmt.Errorf("too many")
@@ -128,6 +131,20 @@ func fuzzBatch(seed int64, n int, adversarial bool) *fuzzReport {
 			problem("panic", "BuildExpr", text, fmt.Sprint(pan))
 			return
 		}
+		// a second build of the same string (libraries memoise): same verdict, and never an empty query with a nil error
+		func() {
+			defer func() {
+				if r := recover(); r != nil {
+					problem("panic", "BuildExpr", text, fmt.Sprint("second build: ", r))
+				}
+			}()
+			g2, err2 := xsel.BuildExpr(text)
+			if err2 == nil && g2.BSR == nil {
+				problem("nil-nil", "BuildExpr", text, "second BuildExpr of the same string: empty query (nil parse tree) with nil error")
+			} else if (err == nil) != (err2 == nil) {
+				problem("nil-nil", "BuildExpr", text, fmt.Sprintf("BuildExpr of the same string: first %v, then %v", err, err2))
+			}
+		}()
 		if err != nil {
 			return
 		}
@@ -251,6 +268,11 @@ func fuzzBatch(seed int64, n int, adversarial bool) *fuzzReport {
 	}
 	if !adversarial {
 		depths = nil
+	}
+	// degenerate bindings ($z is bound to nil, $e to a nil node-set, $u is unbound)
+	for _, t := range []string{"$z", "($z)", "$z + 1", "string($z)", "//*[. = $z]", "$z | $v", "count($z)", "$z/a", "$z[1]", "not($z)", "f($z)", "-$z", "$z = $z",
+		"$e", "$e/a", "$e[1]", "boolean($e)", "string($e)", "$e | $e", "sum($e)", "$u", "$p:z", "f($e, $z)", "concat($z, 'a')", "//*[$z]", "$v[$z]", "lang($z)"} {
+		tryExpr(t, false)
 	}
 	for _, depth := range depths {
 		tryExpr(strings.Repeat("(", depth)+"1"+strings.Repeat(")", depth), true)
